@@ -3,7 +3,7 @@ from propdefs.common import *
 PROP = {
     "bin": "c11",
     "coq_targets": ["theories/Graph/C11Check"],
-    "n": {"quick": 2300, "thorough": 4600, "smoke": 2100},
+    "n": {"quick": 2300, "thorough": 16000, "smoke": 2100},
     "theorems": ["graph_inv", "graph_inv_step", "remove_vertex_effect", "reachable_correct", "unreachable_correct", "idom_check_sound",
                  "dominators_check_sound", "df_check_sound", "semi_nca_correct_le_3", "algorithms_correct_le_3",
                  "dom_of_idom", "dom_of_root", "df_of_idom", "df_of_root", "dom_antisym", "topo_check_sound", "trans_preds_check_sound", "acyclic_check_sound",
